@@ -30,20 +30,28 @@ What the tree hands to a batch is an input of `commit`: `added` (PutNode) and `r
 namespace OasisModel.NodeDB.Badger
 open OasisModel.NodeDB
 
-/-! ### MVCC store -/
+/-! ### MVCC store
 
-/-- key → timestamp → last write at exactly that timestamp (`some true` value, `some false` tombstone) -/
-abbrev MV := Nat → Nat → Option Bool
+Finite maps are association lists with the newest binding first (the executable is run on long
+histories; function-valued state would be re-evaluated on every lookup). -/
 
-def MV.empty : MV := fun _ _ => none
+/-- log of writes, newest first: (key, timestamp, `true` value / `false` tombstone) -/
+abbrev MV := List (Nat × Nat × Bool)
 
-def MV.write (m : MV) (k ts : Nat) (b : Bool) : MV :=
-  fun k' t' => if k' = k ∧ t' = ts then some b else m k' t'
+def MV.empty : MV := []
+
+def MV.write (m : MV) (k ts : Nat) (b : Bool) : MV := (k, ts, b) :: m
+
+/-- The last write to key `k` at exactly timestamp `t`. -/
+def MV.at (m : MV) (k t : Nat) : Option Bool :=
+  match m with
+  | [] => none
+  | e :: rest => if e.1 = k ∧ e.2.1 = t then some e.2.2 else MV.at rest k t
 
 /-- The entry a transaction reading at timestamp `t` sees: `(item.Version(), live)`. -/
 def MV.get (m : MV) (k : Nat) : Nat → Option (Nat × Bool)
-  | 0 => (m k 0).map (fun b => (0, b))
-  | t + 1 => match m k (t + 1) with
+  | 0 => (m.at k 0).map (fun b => (0, b))
+  | t + 1 => match m.at k (t + 1) with
     | some b => some (t + 1, b)
     | none => MV.get m k t
 
@@ -62,32 +70,45 @@ abbrev TH := Nat × Nat
 
 def encTH (th : TH) : Nat := 2 * th.2 + th.1
 
+abbrev RootsMeta := List (TH × List TH)
+
 structure St where
   node : MV
   rootNode : MV
-  rmeta : Nat → List (TH × List TH)
-  upd : Nat → TH → Option (List (Bool × Nat))
+  rmetaL : List (Nat × RootsMeta)                    -- newest binding first
+  updL : List ((Nat × TH) × Option (List (Bool × Nat)))  -- newest binding first; `none` = deleted
   earliest : Nat
   last : Option Nat
 
 def init : St :=
-  { node := MV.empty, rootNode := MV.empty, rmeta := fun _ => [], upd := fun _ _ => none,
-    earliest := 0, last := none }
+  { node := MV.empty, rootNode := MV.empty, rmetaL := [], updL := [], earliest := 0, last := none }
 
-def setFn {α : Type} (f : Nat → α) (k : Nat) (a : α) : Nat → α := fun x => if x = k then a else f x
+def getMeta (l : List (Nat × RootsMeta)) (v : Nat) : RootsMeta :=
+  match l with
+  | [] => []
+  | e :: rest => if e.1 = v then e.2 else getMeta rest v
+
+def St.rmeta (s : St) (v : Nat) : RootsMeta := getMeta s.rmetaL v
+
+def getUpd (l : List ((Nat × TH) × Option (List (Bool × Nat)))) (v : Nat) (th : TH) : Option (List (Bool × Nat)) :=
+  match l with
+  | [] => none
+  | e :: rest => if e.1 = (v, th) then e.2 else getUpd rest v th
+
+def St.upd (s : St) (v : Nat) (th : TH) : Option (List (Bool × Nat)) := getUpd s.updL v th
 
 def finalizedGE (s : St) (v : Nat) : Bool :=
   match s.last with
   | some l => decide (v ≤ l)
   | none => false
 
-def hasKey (rm : List (TH × List TH)) (th : TH) : Bool := rm.any (fun e => e.1 == th)
+def hasKey (rm : RootsMeta) (th : TH) : Bool := rm.any (fun e => e.1 == th)
 
 /-! ### Commit (`badgerBatch.Commit`, badger.go:1015-1140) -/
 
 /-- rootsMeta of the new version with the new root added ("Create root with no derived roots"). -/
-def metaWithRoot (s : St) (new : Root) : Nat → List (TH × List TH) :=
-  setFn s.rmeta new.ver (s.rmeta new.ver ++ [((new.typ, new.hash), [])])
+def metaWithRoot (s : St) (new : Root) : List (Nat × RootsMeta) :=
+  (new.ver, s.rmeta new.ver ++ [((new.typ, new.hash), [])]) :: s.rmetaL
 
 def commitErr (s : St) (old new : Root) : Option Err :=
   if !Spec.follows new old then some .mustFollowOld
@@ -95,7 +116,7 @@ def commitErr (s : St) (old new : Root) : Option Err :=
   else if hasKey (s.rmeta new.ver) (new.typ, new.hash) then none   -- "Root already exists": batch is reset
   else if old.hash != 0 then
     if old.ver < s.earliest && old.ver != new.ver then some .prevMismatch
-    else if !hasKey (metaWithRoot s new old.ver) (old.typ, old.hash) then some .rootNotFound
+    else if !hasKey (getMeta (metaWithRoot s new) old.ver) (old.typ, old.hash) then some .rootNotFound
     else none
   else none
 
@@ -106,12 +127,10 @@ def commitSt (s : St) (old new : Root) (added removed : List Nat) : St :=
   let oth : TH := (old.typ, old.hash)
   let meta1 := metaWithRoot s new
   { s with
-    rmeta := if old.hash != 0 then
-        setFn meta1 old.ver ((meta1 old.ver).map (fun e => if e.1 == oth then (e.1, e.2 ++ [th]) else e))
+    rmetaL := if old.hash != 0 then
+        (old.ver, (getMeta meta1 old.ver).map (fun e => if e.1 == oth then (e.1, e.2 ++ [th]) else e)) :: meta1
       else meta1
-    upd := fun v x => if v = new.ver ∧ x = th then
-             some (added.map (fun h => (false, h)) ++ removed.map (fun h => (true, h)))
-           else s.upd v x
+    updL := ((new.ver, th), some (added.map (fun h => (false, h)) ++ removed.map (fun h => (true, h)))) :: s.updL
     node := s.node.writeAll added new.ver true
     rootNode := s.rootNode.write (encTH th) new.ver true }
 
@@ -173,8 +192,8 @@ def finalizeSt (s : St) (v : Nat) (chosen : List Root) : St :=
   let p := finPlan s v (chosenTH chosen)
   { s with
     node := s.node.writeAll p.dels v false
-    rmeta := setFn s.rmeta v p.keep
-    upd := fun w x => if w = v then none else s.upd w x
+    rmetaL := (v, p.keep) :: s.rmetaL
+    updL := (s.rmeta v).map (fun e => ((v, e.1), none)) ++ s.updL
     last := some v
     earliest := if s.last.isNone then v else s.earliest }
 
@@ -227,7 +246,7 @@ def pruneSt (clv : Nat → List Nat) (s : St) (v : Nat) : St :=
   { s with
     node := s.node.writeAll (pruneDels clv s v) v false
     rootNode := s.rootNode.writeAll ((loneRoots s v).map (fun e => encTH e.1)) v false
-    rmeta := setFn s.rmeta v []
+    rmetaL := (v, []) :: s.rmetaL
     earliest := v + 1 }
 
 def prune (cl clv : Nat → List Nat) (s : St) (v : Nat) : Except Err St :=
